@@ -176,8 +176,9 @@ P_FIXED_T = [
     (1e-9, 20.0), (360 - 1e-9, -20.0), (0.0, 45.0), (720.5, 30.0), (-30.0, 10.0), (-359.5, -70.0),
     (135.0, -35.264389682754654), (225.0, 35.264389682754654), (315.0, -35.264389682754654),
 ]
-SEPS_Q = (1e-12, 1e-9, 1e-6, 1e-3, 1.0, 60.0, 90.0, SB - 1e-6, SB + 1e-6, 179.0,
-          180 - 1e-3, 180 - 1e-6, 180 - 1e-9, 180.0)
+# a geometric ladder towards 180 degrees (the branch switch of the chord formula may sit anywhere in there)
+SEPS_Q = (1e-12, 1e-9, 1e-6, 1e-3, 1.0, 60.0, 90.0, SB - 1e-6, SB + 1e-6, 176.0, 178.0, 179.0, 179.5, 179.8, 179.9,
+          179.95, 179.98, 179.99, 179.995, 180 - 1e-3, 180 - 1e-4, 180 - 1e-6, 180 - 1e-9, 180.0)
 SEPS_T = tuple(sorted(set(SEPS_Q + (
     1e-13, 1e-11, 1e-10, 1e-8, 1e-7, 1e-5, 1e-4, 1e-2, 0.1, 10.0, 30.0, 45.0, 89.999999, 120.0, 150.0,
     170.0, 174.0, 175.0, 179.9, 179.99, 180 - 1e-4, 180 - 1e-5, 180 - 1e-7, 180 - 1e-8, 180 - 1e-10,
